@@ -131,8 +131,9 @@ Proof.
       apply find_ids_idx_live; [exact Hk|apply Sub_refl|intros ? ? []].
     - apply find_ids_lin_live; [exact Hk|apply Sub_refl|intros ? ? []]. }
   destruct res as [l0|e|w|]; try discriminate.
-  destruct (check_rules l0); try discriminate.
-  intros H. injection H as _ <-. eapply Hx. reflexivity.
+  intros H. injection H as _ <-.
+  intros id body Hin. unfold check_rules in Hin. apply filter_In in Hin. destruct Hin as [Hin _].
+  eapply Hx; [reflexivity|exact Hin].
 Qed.
 
 (** * Reads of a state without expired facts change nothing *)
@@ -194,7 +195,7 @@ Proof.
     - destruct (pi_search (st_pindex s) ev); try reflexivity. apply find_ids_idx_noexp; exact Hne.
     - apply find_ids_lin_noexp; exact Hne. }
   cbn [fst] in H. subst s1.
-  destruct res as [l|e|w|]; try reflexivity. destruct (check_rules l); reflexivity.
+  destruct res as [l|e|w|]; reflexivity.
 Qed.
 
 (** * Without a storage failure a removal never errs *)
